@@ -36,6 +36,11 @@ class SourcePlan:
         self.create_exc = tape.draw(len(EXC_KINDS), "create_exc")
         self.gated_emit = tuple(bool(tape.draw(2, "emit_gate")) for _ in range(self.n_events + 1))
         self.aclose_raises = tape.draw(4, "aclose_raises") == 3
+        # payload shape: one event may be None itself (the selection set is then executed with
+        # None as root value - not with the root value of the subscribe call)
+        self.none_event = None
+        if self.n_events and tape.draw(4, "none_event") == 0:
+            self.none_event = tape.draw(self.n_events, "none_event_j")
 
     def produced(self):
         return self.n_events if self.fail_after is None else min(self.fail_after, self.n_events)
@@ -43,16 +48,17 @@ class SourcePlan:
     def render(self):
         return {"shape": self.shape, "events": self.n_events, "fail_after": self.fail_after,
                 "create_fault": self.create_fault, "create_async": self.create_async,
-                "aclose_raises": self.aclose_raises}
+                "aclose_raises": self.aclose_raises, "none_event": self.none_event}
 
 
 class Dispatcher:
     """context_value: routes resolver calls to the per-event Request (own plan per event)."""
 
-    def __init__(self, sim, world, events, planners):
+    def __init__(self, sim, world, events, planners, none_event=None):
         self.sim = sim
         self.world = world
         self.events = events
+        self.none_event = none_event  # index of the event delivered as None (at most one)
         self.per_event = [
             Request(sim, j, world, planners[j], root=events[j]) for j in range(len(planners))
         ]
@@ -61,12 +67,17 @@ class Dispatcher:
     def _req(self, info):
         root = info.root_value
         j = root.get("__ev") if isinstance(root, dict) else None
+        if root is None and self.none_event is not None:
+            j = self.none_event
         if j is None or j >= len(self.per_event):
             self.stray.append(repr(root)[:60])
             return self.per_event[0] if self.per_event else None
         return self.per_event[j]
 
     def resolve(self, source, info, args):
+        if source is None and info.path.prev is None and self.none_event is not None:
+            # root field of the None event: the harness data of that event stands in for it
+            source = self.events[self.none_event]
         return self._req(info).resolve(source, info, args)
 
     def resolve_type(self, value, info, abstract_type):
@@ -104,7 +115,7 @@ def make_source(sim, sp, events, src_exc, st):
             raise StopAsyncIteration
         st.delivered += 1
         sim.log("event", j)
-        return events[j]
+        return None if j == sp.none_event else events[j]
 
     if sp.shape in ("class", "class_noclose"):
         class Src:
@@ -276,7 +287,7 @@ def run_unit(seed=None, unit=None, tier="quick", stats=None):
         pull_gated = bool(st_tape.draw(2, "pull_gated"))
         policy = ("fresh", "lifo", "random")[st_tape.draw(3, "alloc")]
         al = alloc.SimAllocator(policy, st_tape)
-        disp = Dispatcher(sim, world, events, planners)
+        disp = Dispatcher(sim, world, events, planners, sp.none_event)
         sst = SourceState()
         src_exc = make_exc(sp.exc, "SRC", ())
         create_exc = make_exc(sp.create_exc, "CREATE", ())
@@ -368,6 +379,8 @@ def run_unit(seed=None, unit=None, tier="quick", stats=None):
             bump(stats, "probes", "events_ahead_of_pulls",
                  1 if sp.shape == "push" and len(out["responses"]) > 1 else 0)
             bump(stats, "probes", "address_reuse_injected", al.reuses)
+            bump(stats, "faults", "event_payload_none",
+                 1 if sp.none_event is not None and sst.delivered > sp.none_event else 0)
             bump(stats, "probes", "responses_with_errors",
                  sum(1 for x in out["responses"] if x.get("errors")))
         for v in vs:
